@@ -15,6 +15,12 @@ trap 'rm -rf "$S"' EXIT
 rsync -a --exclude .git /repo/ "$S/repo/"
 (cd "$S/repo" && git init -q . >/dev/null 2>&1; git apply --whitespace=nowarn "$PATCH" 2>/dev/null || patch -p1 -s < "$PATCH") || { echo "PATCH-DOES-NOT-APPLY"; exit 3; }
 mkdir -p "$S/ev"
+# a private snapshot of the checker: edits to the checker sources while this runs do not disturb it
+if [ -z "${VERIF_BIN:-}" ]; then
+  for i in 1 2 3 4 5 6; do "$HERE/run.sh" build >/dev/null 2>&1 && break; sleep 10; done
+  cp "$HERE/bin/checker" "$S/checker" || { echo "CHECK-BROKEN: no checker binary"; exit 2; }
+  export VERIF_BIN="$S/checker"
+fi
 caught=""
 for p in $PROPS; do
   out=$(VERIF_REPO="$S/repo" VERIF_EVIDENCE_DIR="$S/ev" "$HERE/run.sh" "$p" quick 2>&1); rc=$?
